@@ -23,12 +23,14 @@ FS_Leaves ==
     [] SFamily = "postfix" -> {NId("a"), NInt(1), NStr("s"), NBool(TRUE), NNil}
     [] SFamily = "forms"   -> {NId("a"), NInt(2)}
     [] SFamily = "mixed"   -> {NId("a"), NInt(1), NFloat("0.5", 1, 1)}
+    [] SFamily = "cond"    -> {NId("a"), NId("b")}
 FS_UnOps ==
   CASE SFamily = "prec"    -> {"not", "-"}
     [] SFamily = "ops"     -> {"!", "+"}
     [] SFamily = "postfix" -> {"-", "not"}
     [] SFamily = "forms"   -> {"not"}
     [] SFamily = "mixed"   -> {"not", "-"}
+    [] SFamily = "cond"    -> {}
 FS_BinOps ==
   CASE SFamily = "prec"    -> {"or", "and", "==", "..", "+", "*", "**"}
     [] SFamily = "ops"     -> {"||", "&&", "!=", "<", ">=", "<=", ">", "in", "not in", "matches", "contains", "startsWith",
@@ -36,6 +38,7 @@ FS_BinOps ==
     [] SFamily = "postfix" -> {"+", "**"}
     [] SFamily = "forms"   -> {"and", "*"}
     [] SFamily = "mixed"   -> {"or", "==", "in", "+", "*", "**"}
+    [] SFamily = "cond"    -> {"or"}
 FS_Props ==
   CASE SFamily = "postfix" -> {Pr("x", FALSE), Pr("x", TRUE), Pr("not", FALSE)}
     [] SFamily = "mixed"   -> {Pr("x", TRUE), Pr("y", FALSE)}
@@ -54,7 +57,7 @@ FS_Builtins ==
     [] SFamily = "mixed"   -> {"any", "count"}
     [] OTHER -> {}
 FS_UseLen  == SFamily \in {"forms"}
-FS_UseCond == SFamily \in {"prec", "forms", "mixed"}
+FS_UseCond == SFamily \in {"prec", "forms", "mixed", "cond"}
 FS_UseIdx  == SFamily \in {"postfix", "mixed"}
 FS_UseElem == SFamily \in {"forms", "mixed"}
 FS_SliceShapes == CASE SFamily = "postfix" -> {"ft", "f", "t", "n"} [] SFamily = "mixed" -> {"f"} [] OTHER -> {}
@@ -95,7 +98,7 @@ ParensRequired == (SComplete /\ ~UnaryBase(STree)) =>
 
 TreeCase == [kind |-> "tree", tree |-> Norm(STree), n |-> n,
              texts |-> <<TextMin(Min(STree)), TextSpaced(Min(STree)), TextWild(Min(STree)),
-                         TextMin(Full(STree)), TextWild(Full(STree)), TextSpaced(Sticky(STree))>>]
+                         TextMin(Full(STree)), TextWild(Full(STree)), TextSpaced(Sticky(STree)), TextWild2(Min(STree))>>]
 EmitTrees == (SComplete /\ SEmitMode = "trees") => PrintT(ToJson(TreeCase))
 
 ---------------------------------------------------------------------------
